@@ -60,6 +60,88 @@ def ppsJ (p : List (VModel × VType × Cost) × Id) : Json :=
               ("costs", Json.arr (p.1.map fun x => strJ x.2.2.name).toArray),
               ("id", idJ p.2)]
 
+/-- keyword arguments: a missing key = argument omitted; `null` = explicit `None` (country / config / beh / pred) -/
+def kwField {α} (f : Json → P α) (j : Json) (k : String) : P (Option α) :=
+  match j.getObjVal? k with
+  | .ok v => do pure (some (← f v))
+  | .error _ => pure none
+
+def nullOr {α} (f : Json → P α) (j : Json) : P (Option α) :=
+  match j with
+  | .null => pure none
+  | v => do pure (some (← f v))
+
+def asKw (j : Json) : P Kw := do
+  pure { coop := ← kwField asBool j "coop", country := ← kwField (nullOr asChars) j "country",
+         mapName := ← kwField asChars j "map_name", mapId := ← kwField asInt j "map_id",
+         config := ← kwField (nullOr asInt) j "config", beh := ← kwField (nullOr asChars) j "beh",
+         pred := ← kwField asPred j "pred", version := ← kwField asChars j "version" }
+
+/-- `[name, value]`: an attribute assignment, or `none` for a read-only query (`str`, `hash`, `eq`, …) -/
+def asOp (j : Json) : P (Option Op × String) := do
+  match ← asArr j with
+  | [n, v] =>
+    let name ← asStr n
+    match name with
+    | "coop" => pure (some (.coop (← asBool v)), name)
+    | "country" => pure (some (.country (← nullOr asChars v)), name)
+    | "map_name" => pure (some (.mapName (← asChars v)), name)
+    | "map_id" => pure (some (.mapId (← asInt v)), name)
+    | "config" => pure (some (.config (← nullOr asInt v)), name)
+    | "beh" => pure (some (.beh (← nullOr asChars v)), name)
+    | "pred" => pure (some (.pred (← asPred v)), name)
+    | "version" => pure (some (.version (← asChars v)), name)
+    | _ => pure (none, name)
+  | _ => throw "op: expected [name, value]"
+
+def asTraj (j : Json) : P Traj := do
+  match ← asStr j with
+  | "input" => pure .input
+  | "pminput" => pure .pmInput
+  | s => do pure (.state (← modelOfName s.toList))
+
+def asPps (j : Json) : P Pps := do
+  match ← asArr j with
+  | [pid, m, t, c, tr] =>
+    pure { pid := ← asInt pid, model := ← modelOfName (← asChars m), vtype := ← typeOfValue (← asNat t),
+           cost := ← costOfName (← asChars c), traj := ← asTraj tr }
+  | _ => throw "pps: expected [pid, model, type, cost, traj]"
+
+def asSOp (cs : List Str) (j : Json) : P SOp := do
+  match ← asArr j with
+  | [n] =>
+    match ← asStr n with
+    | "same" => pure .same
+    | "rev" => pure .rev
+    | _ => pure .query
+  | [n, a] =>
+    match ← asStr n with
+    | "setpps" => pure (.setList (← listOf asNat a))
+    | "sid" =>
+      match mk cs (← asRaw a) with
+      | .ok i => pure (.sid i)
+      | .error _ => throw "solhist: sid op with arguments the constructor rejects"
+    | _ => throw "solhist: unknown unary op"
+  | [n, a, b] =>
+    match ← asStr n with
+    | "model" => pure (.pps (← asNat a) (.model (← modelOfName (← asChars b))))
+    | "vtype" => pure (.pps (← asNat a) (.vtype (← typeOfValue (← asNat b))))
+    | "cost" => pure (.pps (← asNat a) (.cost (← costOfName (← asChars b))))
+    | "traj" => pure (.pps (← asNat a) (.traj (← asTraj b)))
+    | "sidset" =>
+      match ← asOp (Json.arr #[a, b]) with
+      | (some op, _) => pure (.sidOp op)
+      | (none, _) => throw "solhist: sidset of an unknown attribute"
+    | _ => throw "solhist: unknown binary op"
+  | _ => throw "solhist: bad op"
+
+/-- the record every scenario-id op answers with: fields, print, parse of the print, print of the parse -/
+def idRecord (cs : List Str) (i : Id) (extra : List (String × Json)) : Json :=
+  let s := print i
+  let back := parse cs s i.version
+  Json.mkObj ([("id", idJ i), ("str", strJ s), ("parsed", resJ idJ back),
+               ("restr", match back with | .ok i2 => strJ (print i2) | .error _ => Json.null)] ++ extra)
+
 def handle (op : String) (a : Json) : P Json := do
   let cs ← getList asChars a "cs"
   match op with
@@ -108,6 +190,62 @@ def handle (op : String) (a : Json) : P Json := do
       | [s, n] => pure (← asChars s, ← asNat n)
       | _ => throw "read_ids: expected [string, n]") a "items"
     pure <| Json.arr (items.map fun (s, n) => resJ ppsJ (readSolutionIds cs s n)).toArray
+  | "sidkw" =>
+    -- constructor with any subset of its arguments, then as `sid`
+    let kws ← getList asKw a "kws"
+    pure <| Json.arr (kws.map fun k =>
+      match mk cs k.fill with
+      | .error e => errJ e
+      | .ok i => okJ (idRecord cs i [])).toArray
+  | "hist" =>
+    -- constructor, then a history of attribute assignments (and read-only queries), then as `sid`
+    let items ← getList (fun j => do pure (← asRaw (← field j "raw"), ← getList asOp j "ops")) a "items"
+    pure <| Json.arr (items.map fun (r, ops) =>
+      match mk cs r with
+      | .error e => errJ e
+      | .ok i0 =>
+        let (i, errs, prints) := ops.foldl (fun (acc : Id × List Json × List Json) (o : Option Op × String) =>
+          let (i, errs, prints) := acc
+          match o with
+          | (none, name) => (i, errs ++ [Json.null], if name = "str" then prints ++ [strJ (print i)] else prints)
+          | (some op, _) =>
+            match applyOp cs i op with
+            | .ok j => (j, errs ++ [Json.null], prints)
+            | .error e => (i, errs ++ [Json.str e.toString], prints)) (i0, [], [])
+        okJ (idRecord cs i [("errs", Json.arr errs.toArray), ("prints", Json.arr prints.toArray)])).toArray
+  | "solhist" =>
+    let items ← getList (fun j => do
+      pure (← asRaw (← field j "raw"), ← getList asPps j "pps", ← getList (asSOp cs) j "ops")) a "items"
+    pure <| Json.arr (items.map fun (r, pps, ops) =>
+      match mk cs r with
+      | .error e => errJ e
+      | .ok i0 =>
+        match pps.mapM Pps.check with
+        | .error e => errJ e
+        | .ok objs =>
+          let s0 : SolState := { objs := objs, held := (List.range objs.length).foldl (insertIdx objs) [], sid := i0 }
+          let (s, errs, bids) := ops.foldl (fun (acc : SolState × List Json × List Json) (o : SOp) =>
+            let (s, errs, bids) := acc
+            match stepSol cs s o with
+            | none => (s, errs ++ [Json.bool true], bids)
+            | some s' =>
+              (s', errs ++ [Json.bool false], match o with | .query => bids ++ [strJ s.benchmarkId] | _ => bids)) (s0, [], [])
+          let b := s.benchmarkId
+          okJ (Json.mkObj [("bid", strJ b), ("read", resJ ppsJ (readSolutionIds cs b s.held.length)),
+                           ("held", Json.arr (s.pps.map fun p => Json.arr #[intJ p.pid, strJ p.model.name, natJ p.vtype.value,
+                                                                           strJ p.cost.name]).toArray),
+                           ("errs", Json.arr errs.toArray), ("bids", Json.arr bids.toArray)])).toArray
+  | "tables" =>
+    -- the enumerations and constants the model is built on, for comparison with the working tree
+    let trajs : List (String × Traj) := [("input", .input), ("pminput", .pmInput)] ++ VModel.all.map fun m => ("state:" ++ String.ofList m.name, Traj.state m)
+    pure <| Json.mkObj [
+      ("models", Json.arr (VModel.all.map fun m => strJ m.name).toArray),
+      ("types", Json.arr (VType.all.map fun t => natJ t.value).toArray),
+      ("costs", Json.arr (Cost.all.map fun k => strJ k.name).toArray),
+      ("supported", Json.mkObj (VModel.all.map fun m => (String.ofList m.name, Json.arr ((supportedCosts m).map fun k => strJ k.name).toArray))),
+      ("traj", Json.mkObj (trajs.map fun (n, t) => (n, Json.arr ((VModel.all.filter t.validFor).map fun m => strJ m.name).toArray))),
+      ("versions", Json.arr (supported.map strJ).toArray), ("default_version", strJ defaultVersion),
+      ("default_name", strJ defaultName)]
   | _ => throw s!"C13: unknown op {op}"
 
 end CR.Drv.C13
